@@ -9,7 +9,7 @@ import vlib
 
 PARTS = [
     ("c11flow", ("Trace_FlowReject", "Trace_FlowReject.cfg"), 60),
-    ("c11hot", ("Trace_HotspotQps", "Trace_HotspotQps.cfg"), 50),
+    ("c11hot", ("Trace_HotspotQps", "Trace_HotspotQps_reload.cfg"), 50),
     ("c11cb", ("Trace_Breaker", "Trace_Breaker.cfg"), 60),
     ("c11thr", ("Trace_Throttle", "Trace_Throttle.cfg"), 40),
 ]
